@@ -24,6 +24,10 @@ type Flags struct {
 	Stmt    bool // scheduling point before every statement
 	Tick    bool // loop tick guard at the head of every for body
 	Ctx     bool // context.WithTimeout / context.WithDeadline -> deadlines on the virtual clock
+	// MapRange: `for k, v := range X` over a MAP named here (X given as source text: an identifier or a selector chain such as
+	// g.pipelines) iterates over zzvs.MapKeys(X) instead - keys in a canonical order permuted by the harness - so that the
+	// iteration order of these maps, random in every real process, becomes an owned and enumerable environment answer
+	MapRange map[string]bool
 }
 
 func ParseFlags(s string) Flags {
@@ -50,6 +54,15 @@ func ParseFlags(s string) Flags {
 			f.Sync, f.Chan = true, true
 		case "":
 		default:
+			if strings.HasPrefix(strings.TrimSpace(p), "maprange=") {
+				if f.MapRange == nil {
+					f.MapRange = map[string]bool{}
+				}
+				for _, n := range strings.Split(strings.TrimPrefix(strings.TrimSpace(p), "maprange="), "|") {
+					f.MapRange[n] = true
+				}
+				continue
+			}
 			panic("rewrite: unknown flag " + p)
 		}
 	}
@@ -221,8 +234,48 @@ func (r *rw) stmt(s ast.Stmt) []ast.Stmt {
 			return r.selectStmt(x)
 		}
 	}
+	if rs, ok := s.(*ast.RangeStmt); ok && len(r.f.MapRange) > 0 && r.f.MapRange[exprText(rs.X)] && rs.Tok == token.DEFINE {
+		r.mapRange(rs)
+	}
 	r.walk(s)
 	return []ast.Stmt{s}
+}
+
+// exprText renders an identifier or selector chain ("g.pipelines"); anything else is "".
+func exprText(e ast.Expr) string {
+	switch x := e.(type) {
+	case *ast.Ident:
+		return x.Name
+	case *ast.SelectorExpr:
+		if p := exprText(x.X); p != "" {
+			return p + "." + x.Sel.Name
+		}
+	}
+	return ""
+}
+
+// mapRange turns `for k, v := range M { body }` into
+// `for _, k := range zzvs.MapKeys(M) { v, zzok := M[k]; if !zzok { continue }; _ = v; body }`
+// (an entry deleted during the iteration is not visited, like in the language; entries added during it are not either).
+func (r *rw) mapRange(rs *ast.RangeStmt) {
+	m := rs.X
+	key, _ := rs.Key.(*ast.Ident)
+	if key == nil || key.Name == "_" {
+		key = id(r.fresh("k"))
+	}
+	var head []ast.Stmt
+	if v, ok := rs.Value.(*ast.Ident); ok && v.Name != "_" {
+		okv := id(r.fresh("ok"))
+		head = append(head,
+			&ast.AssignStmt{Lhs: []ast.Expr{id(v.Name), okv}, Tok: token.DEFINE, Rhs: []ast.Expr{&ast.IndexExpr{X: m, Index: id(key.Name)}}},
+			&ast.IfStmt{Cond: &ast.UnaryExpr{Op: token.NOT, X: okv}, Body: &ast.BlockStmt{List: []ast.Stmt{&ast.BranchStmt{Tok: token.CONTINUE}}}},
+			&ast.AssignStmt{Lhs: []ast.Expr{id("_")}, Tok: token.ASSIGN, Rhs: []ast.Expr{id(v.Name)}})
+	}
+	rs.X = call(shim("MapKeys"), m)
+	rs.Key = id("_")
+	rs.Value = id(key.Name)
+	head = append(head, &ast.AssignStmt{Lhs: []ast.Expr{id("_")}, Tok: token.ASSIGN, Rhs: []ast.Expr{id(key.Name)}})
+	rs.Body.List = append(head, rs.Body.List...)
 }
 
 func (r *rw) goStmt(x *ast.GoStmt) []ast.Stmt {
